@@ -308,6 +308,11 @@ type transformationKey struct {
 }
 
 type transformationValue struct {
+	// orig is the untransformed value the entry was computed from. The key above does
+	// not determine it (all values of one argument name share the key string, the
+	// position depends on map iteration order, and single-valued variables such as
+	// MATCHED_VAR use the empty key), so a lookup is a hit only if orig matches.
+	orig string
 	arg  string
 	errs []error
 }
